@@ -24,7 +24,7 @@ ASSUMPTIONS = ["K-layer tolerance |a-b| <= 1e-10 + 1e-8 max(|a|,|b|) between mod
 def scenario(ctx, i):
     r = ctx.rng
     C, D, N = gen.dims(ctx, nmax_q=12, nmax_t=40)
-    kind = ["bulk", "tail", "mixed", "floor", "bulk", "highdim", "separated", "tinyweight"][int(r.integers(0, 8))]
+    kind = ["bulk", "tail", "mixed", "floor", "bulk", "highdim", "separated", "tinyweight", "underflow_edge"][int(r.integers(0, 9))]
     if kind == "highdim":
         # many features with a common scale far from 1: the log-normaliser sum_d log(2 pi var_d) is of order +-1e3,
         # its exponential is far outside the double range (the density is fine: only its log is ever needed)
@@ -53,6 +53,16 @@ def scenario(ctx, i):
         keep = r.random(N) < 0.5
         keep[0], keep[-1] = True, False
         x = np.where(keep[:, None], gen.sample_data(r, w, m, v, N), x)
+    if kind == "underflow_edge":
+        # every row has a total log-likelihood of -712 .. -744: exp() of it is a subnormal double (not yet 0), which a log-sum-exp
+        # without a shift turns into a wrong - but finite - value
+        c = int(r.integers(0, C))
+        gn = D * np.log(2 * np.pi) + np.sum(np.log(v[c]))
+        for k_ in range(N):
+            L = float(r.uniform(712, 744))
+            z = r.normal(size=D)
+            z = z / np.linalg.norm(z) * np.sqrt(max(2 * (L + np.log(w[c]) - 0.5 * gn), 1.0))
+            x[k_] = m[c] + np.sqrt(v[c]) * z
     if tiny is not None:
         x[: max(1, N // 2)] = m[tiny] + np.sqrt(v[tiny]) * r.normal(size=(max(1, N // 2), D))
     if kind == "bulk":
